@@ -13,7 +13,9 @@
 //!                        printed for ParsingError outcomes
 //!   forest      = node*,  node = "<rule>@<pos><M|F><n|p|g><a|->[" forest "]"
 //!                 (M matched / F failed; sign None / Positive / neGative; a = atomicity at entry was Atomic)
-//! Extra lines:  "CONTRACT\t<case>\t<message>"   the property oracle (a)-(d) failed on the real run
+//! Extra lines:  "CONTRACT\t<case>\t<message>"   the property oracle (a)-(d) failed on the real run; (a) is evaluated on the DELIVERED
+//!                                                 error: Error::location and Error::line_col (the latter against the line / column
+//!                                                 of the furthest failure computed directly from the input text)
 //!               "VMDIFF\t<case>\t<vm>\t<prog>"   pest_vm::Vm::parse and its transcription to a closure tree disagree
 use pest::{Atomicity, Lookahead, MatchDir, ParseResult};
 use pest_meta::ast::RuleType;
@@ -139,14 +141,36 @@ fn present(c: &[(bool, R)]) -> (Vec<R>, Vec<R>) {
     (ps, ns)
 }
 
-struct Verdict { problems: Vec<String>, nontrivial: bool, set_reading_differs: bool }
+struct Verdict { problems: Vec<String>, nontrivial: bool, set_reading_differs: bool, on_line_end: bool }
 
-fn oracle(log: &[Node], positives: &[R], negatives: &[R], at: usize) -> Verdict {
+/// line and column (both from 1, columns in characters) of byte offset `p`, straight from the text: a line ends with "\n"
+/// (a "\r" in front of it belongs to the line it ends, a lone "\r" is an ordinary character)
+fn direct_line_col(input: &str, p: usize) -> Option<(usize, usize)> {
+    if !input.is_char_boundary(p) { return None; }
+    let pre = &input[..p];
+    let line = 1 + pre.bytes().filter(|b| *b == b'\n').count();
+    let col = 1 + pre[pre.rfind('\n').map(|i| i + 1).unwrap_or(0)..].chars().count();
+    Some((line, col))
+}
+
+/// the delivered error's account of where it is: (is a Pos (not a Span), line, column)
+type Delivered = (bool, usize, usize);
+
+fn oracle(log: &[Node], positives: &[R], negatives: &[R], at: usize, input: &str, delivered: Option<Delivered>) -> Verdict {
     let mut all = vec![];
     flatten(log, &mut all);
     let mut problems = vec![];
     let maxpos = all.iter().filter(|n| counts(n)).map(|n| n.pos).max().unwrap_or(0);
     if at != maxpos { problems.push(format!("(a) reported position {} but the furthest failed reportable attempt is at {}", at, maxpos)); }
+    if let Some((is_pos, l, c)) = delivered {
+        if !is_pos { problems.push("(a) the delivered error carries a span, not a position".to_string()); }
+        if let Some(want) = direct_line_col(input, maxpos) {
+            if (l, c) != want {
+                problems.push(format!("(a) the delivered error's line_col is {:?} but the furthest failed reportable attempt (byte {}) is at line/column {:?} of the input", (l, c), maxpos, want));
+            }
+        }
+    }
+    let on_line_end = input.as_bytes().get(maxpos).map_or(false, |b| *b == b'\n' || *b == b'\r');
     for r in positives {
         if !all.iter().any(|n| n.rule == *r && n.pos == at && !n.matched && !n.sneg && !n.satomic) {
             problems.push(format!("(b) expected rule {} has no reportable failed attempt at {}", r, at));
@@ -168,7 +192,7 @@ fn oracle(log: &[Node], positives: &[R], negatives: &[R], at: usize) -> Verdict 
     let (ps2, ns2) = present(&cs);
     let at_final = all.iter().filter(|n| counts(n) && n.pos == maxpos).count();
     let negated = all.iter().any(|n| n.sneg && !n.satomic);
-    Verdict { problems, nontrivial: at_final >= 2 || negated, set_reading_differs: ps2 != sp || ns2 != sn }
+    Verdict { problems, nontrivial: at_final >= 2 || negated, set_reading_differs: ps2 != sp || ns2 != sn, on_line_end }
 }
 
 // ------------------------------------------------------------------------------------------
@@ -221,6 +245,11 @@ fn tokens_of<'i, T: pest::RuleType>(pairs: pest::iterators::Pairs<'i, T>, name: 
 
 fn loc(e: &pest::error::InputLocation) -> usize { match e { pest::error::InputLocation::Pos(p) => *p, pest::error::InputLocation::Span((a, _)) => *a } }
 
+fn delivered_of<T: pest::RuleType>(e: &pest::error::Error<T>) -> Delivered {
+    let is_pos = matches!(e.location, pest::error::InputLocation::Pos(_));
+    match e.line_col { pest::error::LineColLocation::Pos((l, c)) => (is_pos, l, c), pest::error::LineColLocation::Span((l, c), _) => (false, l, c) }
+}
+
 struct Obs { text: String, outcome: Outcome, log: Vec<Node>, verdict: Option<Verdict> }
 
 fn observe(c: &Case) -> Obs {
@@ -234,18 +263,19 @@ fn observe(c: &Case) -> Obs {
         Err(_) => { obs.text = "Panic".into(); }
         Ok(_) if cx.diverged.get() => { obs.text = "Diverged".into(); }
         Ok(r) => {
+            let mut delivered: Option<Delivered> = None;
             let (ok, out) = match r {
                 Ok(pairs) => (true, match catch(|| tokens_of(pairs, &|r: &R| r.to_string())) { Ok(t) => Outcome::Pairs(t), Err(_) => Outcome::Pairs("tokens-panic".into()) }),
-                Err(e) => (false, match e.variant {
+                Err(e) => { delivered = Some(delivered_of(&e)); (false, match e.variant {
                     pest::error::ErrorVariant::ParsingError { positives, negatives } => Outcome::Parsing(positives, negatives, loc(&e.location)),
                     pest::error::ErrorVariant::CustomError { message } => Outcome::Custom(message, loc(&e.location)),
-                }),
+                }) }
             };
             let mut f = String::new();
             show_forest(&log, false, &mut f);
             if let Outcome::Parsing(..) = out { f.push_str(" slog="); show_forest(&log, true, &mut f); }
             obs.text = format!("{} log={} || {}", if ok { "Ok" } else { "Err" }, f, out.show());
-            if let Outcome::Parsing(ref p, ref n, at) = out { obs.verdict = Some(oracle(&log, p, n, at)); }
+            if let Outcome::Parsing(ref p, ref n, at) = out { obs.verdict = Some(oracle(&log, p, n, at, &c.input, delivered)); }
             obs.outcome = out;
             obs.log = log;
         }
@@ -421,13 +451,33 @@ fn ab_inputs(maxlen: usize, alpha: &[char]) -> Vec<String> {
     out
 }
 
+/// Line terminators and a multi-byte character at and around the position where the parse failed: the text `input` with one of
+/// "\n", "\r", "\r\n", "é" inserted at / put in place of the character at / put in front of the character before byte `at`.
+const LINE_TOKENS: [&str; 5] = ["\n", "\r", "\r\n", "\u{e9}", "\n\n"];
+fn line_variant(rng: &mut Rng, input: &str, at: usize) -> String {
+    let at = if input.is_char_boundary(at) { at.min(input.len()) } else { 0 };
+    let t = LINE_TOKENS[rng.weighted(&[4, 3, 2, 1, 1])];
+    let next = input[at..].chars().next().map_or(at, |c| at + c.len_utf8());
+    let prev = input[..at].chars().next_back().map_or(at, |c| at - c.len_utf8());
+    match rng.weighted(&[4, 3, 1, 1]) {
+        0 => format!("{}{}{}", &input[..at], t, &input[at..]),        // in front of what was looked at
+        1 => format!("{}{}{}", &input[..at], t, &input[next..]),      // in place of it
+        2 => format!("{}{}{}", &input[..prev], t, &input[prev..]),    // one character earlier
+        _ => format!("{}{}{}{}", &input[..prev], t, &input[prev..at], t),   // a terminated line in front, then the text cut at the failure
+    }
+}
+/// where a follow-up input is derived from: the reported position of a failed parse, else any position
+fn pivot(rng: &mut Rng, o: &Obs, input: &str) -> usize {
+    match o.outcome { Outcome::Parsing(_, _, at) => at, _ => { let k = rng.below(input.len() as u64 + 1) as usize; (0..=k).rev().find(|i| input.is_char_boundary(*i)).unwrap_or(0) } }
+}
+
 /// small grammars in pest syntax (references to later rules only: no recursion)
 fn gr_expr(rng: &mut Rng, depth: u32, i: usize, n: usize) -> String {
     if depth == 0 || rng.chance(1, 4) {
-        return match rng.weighted(&[5, 4, 2, 12, 1, 1, 1, 1, 1]) {
+        return match rng.weighted(&[5, 4, 2, 12, 1, 1, 1, 1, 1, 1, 1]) {
             0 => "\"a\"".into(), 1 => "\"b\"".into(), 2 => "\"ab\"".into(),
             3 => if i + 1 < n { format!("r{}", rng.range(i as u64 + 1, n as u64 - 1)) } else { "\"a\"".into() },
-            4 => "EOI".into(), 5 => "ANY".into(), 6 => "^\"a\"".into(), 7 => "'a'..'b'".into(), _ => "ASCII_DIGIT".into(),
+            4 => "EOI".into(), 5 => "ANY".into(), 6 => "^\"a\"".into(), 7 => "'a'..'b'".into(), 8 => "ASCII_DIGIT".into(), 9 => "NEWLINE".into(), _ => "\"\\n\"".into(),
         };
     }
     let a = gr_expr(rng, depth - 1, i, n);
@@ -465,7 +515,7 @@ fn gr_grammar(rng: &mut Rng) -> String {
 // ------------------------------------------------------------------------------------------
 // driver
 // ------------------------------------------------------------------------------------------
-struct Stats { n: u64, nontriv: u64, oks: u64, failing: u64, panics: u64, diverged: u64, setdiff: u64, vm: u64, vmskipped: u64, contracts: u64, seen: HashSet<String> }
+struct Stats { lineend: u64, n: u64, nontriv: u64, oks: u64, failing: u64, panics: u64, diverged: u64, setdiff: u64, vm: u64, vmskipped: u64, contracts: u64, seen: HashSet<String> }
 
 /// Watchdog: the real code is expected to return; a case that keeps it busy for 10 s is reported on stderr as
 /// "HANG\t<case>" and the process is aborted (the closure-invocation budget bounds the interpreter, so the time is spent
@@ -507,16 +557,17 @@ fn emit(c: &Case, st: &mut Stats, w: &mut impl Write) -> Obs {
     if let Some(v) = &o.verdict {
         if v.nontrivial && st.seen.insert(cs.clone()) { st.nontriv += 1; }
         if v.set_reading_differs { st.setdiff += 1; }
+        if v.on_line_end { st.lineend += 1; }
         for m in &v.problems { st.contracts += 1; writeln!(w, "CONTRACT\t{}\t{}", cs, m).unwrap(); }
     }
     o
 }
 
 /// one grammar x one input through the real VM and through its transcription
-fn vm_case(grammar: &str, rules: &[OptimizedRule], env: &[Prog], vm: &pest_vm::Vm, input: &str, det: bool, st: &mut Stats, w: &mut impl Write) {
+fn vm_case(grammar: &str, rules: &[OptimizedRule], env: &[Prog], vm: &pest_vm::Vm, input: &str, det: bool, st: &mut Stats, w: &mut impl Write) -> Obs {
     let c = Case { lim: None, det, input: input.to_string(), env: env.to_vec(), prog: Prog::Call(0) };
     let o = emit(&c, st, w);
-    if o.text == "Diverged" { return; }      // never hand a diverging grammar to the VM
+    if o.text == "Diverged" { return o; }      // never hand a diverging grammar to the VM
     st.vm += 1;
     let names: Vec<&str> = rules.iter().map(|r| r.name.as_str()).collect();
     let id = |n: &str| -> R { names.iter().position(|x| *x == n).unwrap_or(names.len()) as R };
@@ -526,8 +577,15 @@ fn vm_case(grammar: &str, rules: &[OptimizedRule], env: &[Prog], vm: &pest_vm::V
     let vo = match r {
         Err(_) => Outcome::Panic,
         Ok(Ok(pairs)) => match catch(|| tokens_of(pairs, &|r: &&str| id(r).to_string())) { Ok(t) => Outcome::Pairs(t), Err(_) => Outcome::Pairs("tokens-panic".into()) },
-        Ok(Err(e)) => match e.variant {
+        Ok(Err(e)) => { let dl = delivered_of(&e); match e.variant {
             pest::error::ErrorVariant::ParsingError { positives, negatives } => {
+                // (a) on the error Vm::parse delivers: a position, and its line_col is the line / column of that position in the input
+                let at = loc(&e.location);
+                if !dl.0 || direct_line_col(input, at).map_or(true, |w| w != (dl.1, dl.2)) {
+                    st.contracts += 1;
+                    writeln!(w, "CONTRACT\t{}\t(a) Vm::parse delivers location {:?} with line_col {:?}, but byte {} of the input is at line/column {:?} (grammar {})",
+                        c.show(), e.location, (dl.1, dl.2), at, direct_line_col(input, at), esc(grammar)).unwrap();
+                }
                 // (c) on the VM's own lists: strictly increasing in the order of the rule type (&str)
                 if !positives.windows(2).all(|x| x[0] < x[1]) || !negatives.windows(2).all(|x| x[0] < x[1]) {
                     st.contracts += 1;
@@ -538,19 +596,30 @@ fn vm_case(grammar: &str, rules: &[OptimizedRule], env: &[Prog], vm: &pest_vm::V
                 Outcome::Parsing(p, n, loc(&e.location))
             }
             pest::error::ErrorVariant::CustomError { message } => Outcome::Custom(message, loc(&e.location)),
-        },
+        } },
     };
     if vo != o.outcome {
         writeln!(w, "VMDIFF\t{}\t{}\t{} (grammar {})", c.show(), vo.show(), o.outcome.show(), esc(grammar)).unwrap();
     }
+    o
 }
 
-fn vm_grammar(grammar: &str, inputs: &[String], det: bool, st: &mut Stats, w: &mut impl Write) -> bool {
+fn vm_grammar(grammar: &str, inputs: &[String], det: bool, st: &mut Stats, w: &mut impl Write, mut rng: Option<&mut Rng>) -> bool {
     pest::set_call_limit(None);
     let rules = match catch(|| pest_meta::parse_and_optimize(grammar)) { Ok(Ok((_, r))) => r, _ => { st.vmskipped += 1; return false; } };
     let env = match compile_vm(&rules) { Some(e) => e, None => { st.vmskipped += 1; return false; } };
     let vm = pest_vm::Vm::new(rules.clone());
-    for input in inputs { vm_case(grammar, &rules, &env, &vm, input, det, st, w); }
+    for input in inputs {
+        let o = vm_case(grammar, &rules, &env, &vm, input, det, st, w);
+        // the same grammar on the text with a line terminator / multi-byte character where the parse stopped
+        if let Some(rng) = rng.as_deref_mut() {
+            if rng.chance(1, 3) {
+                let at = pivot(rng, &o, input);
+                let v = line_variant(rng, input, at);
+                vm_case(grammar, &rules, &env, &vm, &v, det, st, w);
+            }
+        }
+    }
     true
 }
 
@@ -560,10 +629,10 @@ fn main() {
     let mode = arg(1);
     let stdout = io::stdout();
     let mut w = BufWriter::with_capacity(1 << 20, stdout.lock());
-    let mut st = Stats { n: 0, nontriv: 0, oks: 0, failing: 0, panics: 0, diverged: 0, setdiff: 0, vm: 0, vmskipped: 0, contracts: 0, seen: HashSet::new() };
+    let mut st = Stats { lineend: 0, n: 0, nontriv: 0, oks: 0, failing: 0, panics: 0, diverged: 0, setdiff: 0, vm: 0, vmskipped: 0, contracts: 0, seen: HashSet::new() };
     match mode.as_str() {
         "one" => { let c = Case::parse(&arg(2)); emit(&c, &mut st, &mut w); }
-        "vmone" => { let g = unhex(&arg(2)); let i = unhex(&arg(3)); vm_grammar(&g, &[i], false, &mut st, &mut w); }
+        "vmone" => { let g = unhex(&arg(2)); let i = unhex(&arg(3)); vm_grammar(&g, &[i], false, &mut st, &mut w, None); }
         // the generic closure-tree generator of prog.rs (all combinators, stack ops, tags)
         "random" => {
             let count = arg_u64(2, 1000); let mut rng = Rng::new(arg_u64(3, 0)); let maxdepth = arg_u64(4, 6);
@@ -576,7 +645,12 @@ fn main() {
                 let lim = if rng.chance(1, 12) { Some(rng.range(1, 12) as usize) } else { None };
                 for _ in 0..3 {
                     let input = gen_input(&mut rng, 5);
-                    emit(&Case { lim, det, input, env: env.clone(), prog: prog.clone() }, &mut st, &mut w);
+                    let o = emit(&Case { lim, det, input: input.clone(), env: env.clone(), prog: prog.clone() }, &mut st, &mut w);
+                    if rng.chance(1, 4) {
+                        let at = pivot(&mut rng, &o, &input);
+                        let input = line_variant(&mut rng, &input, at);
+                        emit(&Case { lim, det, input, env: env.clone(), prog: prog.clone() }, &mut st, &mut w);
+                    }
                 }
             }
         }
@@ -590,7 +664,13 @@ fn main() {
                 let lim = if rng.chance(1, 16) { Some(rng.range(1, 16) as usize) } else { None };
                 for _ in 0..5 {
                     let input = rng.pick(&inputs).clone();
-                    emit(&Case { lim, det, input, env: env.clone(), prog: prog.clone() }, &mut st, &mut w);
+                    let o = emit(&Case { lim, det, input: input.clone(), env: env.clone(), prog: prog.clone() }, &mut st, &mut w);
+                    // the same tree on the text with a line terminator / multi-byte character where it stopped
+                    if rng.chance(1, 4) {
+                        let at = pivot(&mut rng, &o, &input);
+                        let input = line_variant(&mut rng, &input, at);
+                        emit(&Case { lim, det, input, env: env.clone(), prog: prog.clone() }, &mut st, &mut w);
+                    }
                 }
             }
         }
@@ -602,7 +682,8 @@ fn main() {
                 let g = gr_grammar(&mut rng);
                 let mut ins: Vec<String> = (0..5).map(|_| rng.pick(&inputs).clone()).collect();
                 ins.push(String::new());
-                if !vm_grammar(&g, &ins, rng.chance(1, 8), &mut st, &mut w) && st.vmskipped > 50 * (count + 10) { break; }
+                let det = rng.chance(1, 8);
+                if !vm_grammar(&g, &ins, det, &mut st, &mut w, Some(&mut rng)) && st.vmskipped > 50 * (count + 10) { break; }
             }
         }
         // exhaustive: two or three rules under every small combination of wrappers and connectives
@@ -624,7 +705,7 @@ fn main() {
             } }
             let tops: Vec<fn(Prog) -> Prog> = vec![|b| Rule(0, bx(b)), |b| b, |b| Look(false, bx(Rule(0, bx(b)))),
                 |b| Seq(bx(Then(bx(Str("a".into())), bx(Rule(0, bx(b)))))), |b| Else(bx(Rule(0, bx(b))), bx(Rule(4, bx(Str("b".into())))))];
-            let inputs = vec!["".to_string(), "a".into(), "b".into(), "ab".into(), "aa".into()];
+            let inputs = vec!["".to_string(), "a".into(), "b".into(), "ab".into(), "aa".into(), "\n".into(), "a\n".into(), "a\r\nb".into(), "\rb".into()];
             let mut k = 0u64;
             for t in &tops { for b in &bodies {
                 k += 1;
@@ -635,6 +716,6 @@ fn main() {
         }
         _ => { eprintln!("usage: c08 one CASE | vmone GRAMMARHEX INPUTHEX | random N SEED [DEPTH] | glike N SEED | vm N SEED | small SHARD SHARDS"); std::process::exit(2); }
     }
-    writeln!(w, "#SUMMARY\tevaluations={}\tdistinct_nontrivial={}\tok={}\tfailing={}\tpanics={}\tdiverged={}\tset_reading_differs={}\tvm_cases={}\tvm_skipped={}\tcontracts={}",
-        st.n, st.nontriv, st.oks, st.failing, st.panics, st.diverged, st.setdiff, st.vm, st.vmskipped, st.contracts).unwrap();
+    writeln!(w, "#SUMMARY\tevaluations={}\tdistinct_nontrivial={}\tok={}\tfailing={}\tpanics={}\tdiverged={}\tset_reading_differs={}\tvm_cases={}\tvm_skipped={}\tcontracts={}\tfailure_on_line_terminator={}",
+        st.n, st.nontriv, st.oks, st.failing, st.panics, st.diverged, st.setdiff, st.vm, st.vmskipped, st.contracts, st.lineend).unwrap();
 }
